@@ -143,6 +143,7 @@ fn four_gib_stream(rep: &Report) -> Result<(), String> {
 pub fn run(rep: &'static Report) {
     let seed = rep.seed;
     rep.set_rule("E-ENV in tiny scope with the password-mode AAD (magic): every read partition, bounded write partitions, both loops, plus mismatched key/AAD pairs; E-GRID through pass_encrypt/pass_decrypt: all ordered password pairs over the 12-word alphabet x salts, and lengths x bounded short-I/O schedules. distinct non-trivial = distinct ciphertext streams round-tripped + distinct (password, other password, salt) triples");
+    rep.rule_add("pass_encrypt under every write/flush fault at every call index (+1 short write): Ok implies the sink holds the file.");
     rep.rule_add("Password channels: encrypt through each of {environment, controlling terminal, stdin terminal}, decrypt through each, 8 passwords differing in blanks at their ends; a near miss is refused.");
     rep.rule_add("CLI password pairs and round trips, the latter also with KESTREL_NEW_PASSWORD holding another password.");
     rep.assume("password/plaintext values from fixed alphabets; scrypt cost bounds the public-API part (counted in evidence)");
@@ -265,6 +266,38 @@ pub fn run(rep: &'static Report) {
             execs.fetch_add(st.executions, Ordering::Relaxed);
         }
     });
+    // "the file produced by password encryption decrypts": whenever pass_encrypt reports success, what the sink holds is
+    // that file -- also when a write or flush call failed somewhere (every call index, every fault kind, plus one short
+    // write): a success over a sink that lost the last record would be a file that does not decrypt
+    {
+        let fexecs = AtomicU64::new(0);
+        let flens: Vec<usize> = rep.tier.pick(vec![0, 30, CS + 1], vec![0, 1, 30, CS, CS + 1, 2 * CS + 1]);
+        flens.par_iter().for_each(|&l| {
+            let p = plaintext(seed ^ 0x24, l);
+            let salt = derive32(seed, "c02-fault-salt");
+            let pw = b"pw".to_vec();
+            let key = r::pass_key(&pw, &salt);
+            let enc = Subject::PassEnc { pw: hx(&pw), salt: hx(&salt) };
+            let menu = Menu::shorts(ReadMode::Full, true).with_all_faults().no_record();
+            let mut b = Budget::new(0, 1, 1);
+            b.shorts_total = 1;
+            let st = explore(&p, menu, b, &|e| run_env(&enc, e), &|env, res| {
+                if res.is_ok() {
+                    let good = matches!(r::read_pass_file_with_key(&key, &env.sink), Ok(k) if k.plaintext == p);
+                    if !good {
+                        let mut c = Case::new(&enc, &p, menu, env).json(json!({"label":"C02/pass-encrypt-ok-without-the-file"}));
+                        c["kind"] = json!("enc-fault");
+                        rep.violation("C02/pass-encrypt-reports-success-without-the-file", c, format!("pass_encrypt of {} bytes returned Ok under the schedule [{}], but the {} bytes in the sink are not a file that decrypts to the plaintext", p.len(), describe(env), env.sink.len()));
+                    }
+                }
+            })
+            .unwrap_or_else(|e| crate::report::machinery(&e));
+            fexecs.fetch_add(st.executions, Ordering::Relaxed);
+            rep.nontrivial(format!("enc-faults-{}", l).as_bytes());
+        });
+        rep.eval(fexecs.load(Ordering::Relaxed));
+        rep.extra("encrypt_fault_executions", json!(fexecs.load(Ordering::Relaxed)));
+    }
     rep.eval(execs.load(Ordering::Relaxed));
     rep.extra("public_api_short_io_executions", json!(execs.load(Ordering::Relaxed)));
     rep.sample(json!({"kind":"pass roundtrip","L":CS+1,"password":"(empty)","schedule":"read#1 returns 1 byte, everything else default"}));
@@ -499,6 +532,19 @@ fn cli_pairs(rep: &Report) {
 pub fn replay(rep: &'static Report, case: &Value) {
     if case["kind"] == "chan" {
         crate::chan::round_trips(rep, "C02");
+        return;
+    }
+    if case["kind"] == "enc-fault" {
+        let c = Case::from_json(case).unwrap_or_else(|| crate::report::machinery("bad case"));
+        let (env, res) = c.run();
+        println!("  observed: {} with {} bytes in the sink; schedule [{}]", res.brief(), env.sink.len(), describe(&env));
+        if res.is_ok() {
+            let salt: [u8; 32] = env.sink.get(4..36).and_then(|x| x.try_into().ok()).unwrap_or([0; 32]);
+            let good = matches!(r::read_pass_file_with_key(&r::pass_key(b"pw", &salt), &env.sink), Ok(k) if hx(&k.plaintext) == c.src);
+            if !good {
+                rep.violation("C02/pass-encrypt-reports-success-without-the-file", case.clone(), "Ok, but the sink does not hold a file that decrypts to the plaintext".into());
+            }
+        }
         return;
     }
     if case["kind"] == "cli-rt" {
